@@ -46,6 +46,10 @@ fn tricky() -> BoxedStrategy<String> {
         name().prop_map(|a| format!("{{% autoescape {a} %}}t{{% endautoescape %}}")),
         name().prop_map(|a| format!("{{% filter replace({a}, 'r') %}}t{{% endfilter %}}")),
         (name(), name()).prop_map(|(a, b)| format!("{{% set {a}.attr = {b} %}}")),
+        // attribute targets inside tuple targets read their object too
+        (name(), name()).prop_map(|(a, b)| format!("{{% set {a}.attr, q = 1, {b} %}}{{{{ q }}}}")),
+        (name(), name()).prop_map(|(a, b)| format!("{{% set (q, (r, {a}.attr)) = (1, ({b}, 3)) %}}{{{{ q }}}}")),
+        (name(), name()).prop_map(|(a, b)| format!("{{% with q = 1 %}}{{% set {a}.x, {b}.y = q, q %}}{{% endwith %}}")),
         name().prop_map(|a| format!("{{% block blk %}}{{{{ super }}}}{{{{ {a} }}}}{{% endblock %}}")),
         name().prop_map(|a| format!("{{% call({a}) mm2({a}) %}}{{{{ {a} }}}}{{% endcall %}}")),
         name().prop_map(|a| format!("{{% do dict({a}={a}) %}}")),
